@@ -236,7 +236,11 @@ def _is_arg_reduction(func: T_Agg) -> bool:
 
 
 def _is_minmax_reduction(func: T_Agg) -> bool:
-    return not _is_arg_reduction(func) and (isinstance(func, str) and ("max" in func or "min" in func))
+    if _is_arg_reduction(func):
+        return False
+    if isinstance(func, Aggregation):
+        func = func.name
+    return isinstance(func, str) and ("max" in func or "min" in func)
 
 
 def _is_first_last_reduction(func: T_Agg) -> bool:
